@@ -10,6 +10,7 @@ import (
 	"os"
 	"runtime"
 	"sort"
+	"sync"
 	"sync/atomic"
 	"time"
 
@@ -95,7 +96,11 @@ type phaseReport struct {
 	FedDoneMs    int64                    `json:"fed_done_ms,omitempty"`
 }
 
+var emitMu sync.Mutex
+
 func emit(p *phaseReport) {
+	emitMu.Lock()
+	defer emitMu.Unlock()
 	b, err := json.Marshal(p)
 	if err != nil {
 		b = []byte(fmt.Sprintf(`{"phase":%q,"note":"marshal error: %s"}`, p.Phase, err))
@@ -125,6 +130,9 @@ type c14World struct {
 	stopFeed atomic.Bool
 	links    []router.Link
 	tParked  time.Time
+	// sawRunning: the data plane's running flag has been seen set (it is
+	// cleared again by Shutdown)
+	sawRunning bool
 }
 
 func ltName(t topology.LinkType) string { return t.String() }
@@ -475,7 +483,10 @@ func (w *c14World) stableCut(want roleCount, needParked bool, watchdog time.Dura
 		}
 		// while input is still being fed, look only now and then (a goroutine
 		// snapshot stops the world)
-		if !router.VerifIsRunning(w.star.C) || w.led.recs.Load() == nil {
+		if !w.sawRunning && router.VerifIsRunning(w.star.C) {
+			w.sawRunning = true
+		}
+		if !w.sawRunning || w.led.recs.Load() == nil {
 			// the data plane has not initialized its pool yet (the running
 			// flag is an atomic set after initPacketPool)
 			allParked = false
@@ -509,37 +520,6 @@ func (w *c14World) stableCut(want roleCount, needParked bool, watchdog time.Dura
 	}
 }
 
-// bfdCalm waits for a moment at which no BFD session is about to transmit:
-// all sessions have decayed to their slow (Down) schedule and have sent
-// recently. This only chooses *when* the quiescent Shutdown is called (the
-// transmit-during-Shutdown window belongs to the shutdown-under-load phase);
-// it never influences a verdict.
-func (w *c14World) bfdCalm(max time.Duration) bool {
-	deadline := time.Now().Add(max)
-	for {
-		ok := true
-		now := time.Now().UnixNano()
-		for _, c := range w.conns {
-			c.bfdMu.Lock()
-			for _, t := range c.bfdSeen {
-				// on the slow (Down) schedule the period is 0.75-1 s: the next
-				// transmission is at least 750 ms after the last one
-				if t.prev == 0 || t.last-t.prev < int64(700*time.Millisecond) || now-t.last > int64(550*time.Millisecond) {
-					ok = false
-				}
-			}
-			c.bfdMu.Unlock()
-		}
-		if ok {
-			return true
-		}
-		if time.Now().After(deadline) {
-			return false
-		}
-		time.Sleep(3 * time.Millisecond)
-	}
-}
-
 func c14Child(cfg childCfg) {
 	t0 := time.Now()
 	_ = log.Setup(log.Config{Console: log.ConsoleConfig{Level: "error", StacktraceLevel: "none"}})
@@ -547,6 +527,9 @@ func c14Child(cfg childCfg) {
 	if err != nil {
 		emit(&phaseReport{Phase: "setup", Inconclusive: "fixture: " + err.Error()})
 		os.Exit(0)
+	}
+	w.led.emitNow = func(v violation) {
+		emit(&phaseReport{Phase: "violation", Violations: []violation{v}})
 	}
 	router.VerifPoolHook = w.led.hook
 	ctx, cancel := context.WithCancel(context.Background())
@@ -611,12 +594,9 @@ func c14Child(cfg childCfg) {
 	emit(rep)
 
 	// ---- phase B: Shutdown of the idle data plane ----
-	calm := w.bfdCalm(8 * time.Second)
+	// (BFD sessions keep transmitting on their own schedule during Shutdown)
 	p, stack := mon.Try(func() { w.star.C.DataPlane.Shutdown() })
 	rep2 := &phaseReport{Phase: "after-shutdown"}
-	if !calm {
-		rep2.Note = "bfd sessions did not reach their slow schedule; Shutdown called anyway"
-	}
 	if p != nil {
 		w.led.violate("C14:panic:"+mon.PanicSite(stack), fmt.Sprintf("Shutdown of an idle data plane panicked: %v", p), map[string]any{"stack": stack})
 	}
